@@ -55,6 +55,9 @@ pub enum Scen {
     /// error (the connection driver that meets it ends at once, before the connection has drained);
     /// a watchdog on the server closes whatever is left after two seconds
     S9,
+    /// the server sends three datagrams and closes a moment later; the client first waits for the
+    /// close and only then reads: what arrived before the close is still handed over
+    S10,
 }
 
 impl Scen {
@@ -72,10 +75,11 @@ impl Scen {
             Scen::S8 => "S8",
             Scen::S8x => "S8x",
             Scen::S9 => "S9",
+            Scen::S10 => "S10",
         }
     }
     pub fn parse(s: &str) -> Option<Self> {
-        [Scen::S1, Scen::S1w, Scen::S2, Scen::S3, Scen::S4a, Scen::S4r, Scen::S5, Scen::S6, Scen::S7, Scen::S8, Scen::S8x, Scen::S9].into_iter().find(|x| x.name() == s)
+        [Scen::S1, Scen::S1w, Scen::S2, Scen::S3, Scen::S4a, Scen::S4r, Scen::S5, Scen::S6, Scen::S7, Scen::S8, Scen::S8x, Scen::S9, Scen::S10].into_iter().find(|x| x.name() == s)
     }
 }
 
@@ -1846,6 +1850,66 @@ async fn s9_server_conn(o: Arc<Obs>, inc: Incoming, _ep: Endpoint) {
     o.stage("done");
 }
 
+// S10: datagrams that arrived before the peer's close are read after it
+
+async fn s10_client(o: Arc<Obs>, ep: Endpoint, cc: ClientConfig, saddr: SocketAddr) {
+    let connecting = match ep.connect_with(cc, saddr, "localhost") {
+        Ok(c) => c,
+        Err(e) => return o.fail("O1:connect-call", format!("{e:?}")),
+    };
+    let conn = match aw!(o, "cli.connect", connecting) {
+        Ok(c) => c,
+        Err(e) => return o.fail("O1:connect", cerr(&e)),
+    };
+    let e = aw!(o, "cli.closed", conn.closed());
+    if cerr(&e) != "app(5,\"sent-all\")" {
+        o.fail("O1:closed", format!("client closed() = {}, expected the server's close", cerr(&e)));
+    }
+    // (how many of the three had been put on the wire before the close is the server's note; the
+    // network is lossless and FIFO, so exactly those arrived before the close)
+    let mut got = 0u16;
+    loop {
+        match aw!(o, "cli.read_datagram", conn.read_datagram()) {
+            Ok(d) if got < 3 && d[..] == dgram_payload(40 + got, 200 + 50 * got as usize)[..] => got += 1,
+            Ok(d) => {
+                o.fail("O2:datagram", format!("datagram {got} read after the close: {} bytes, not what was sent", d.len()));
+                break;
+            }
+            Err(_) => break,
+        }
+    }
+    let sent = o.m.lock().unwrap().notes.get("s10_datagrams_transmitted_before_close").copied().unwrap_or(0);
+    if (got as i64) < sent {
+        o.fail("O2:datagram-lost-at-close", format!("{sent} datagrams had left the server before its close (lossless FIFO network), but after the close read_datagram() handed over only {got}"));
+    }
+    drop(conn);
+    aw!(o, "cli.wait_idle", ep.wait_idle());
+    drop(ep);
+    o.stage("done");
+}
+
+async fn s10_server_conn(o: Arc<Obs>, inc: Incoming, ep: Endpoint) {
+    let conn = match aw!(o, "srv.handshake", inc.into_future()) {
+        Ok(c) => c,
+        Err(e) => {
+            ep.close(VarInt::from_u32(77), b"ep");
+            return o.fail("O1:accept", format!("incoming.await: {}", cerr(&e)));
+        }
+    };
+    for i in 0..3u16 {
+        if let Err(e) = conn.send_datagram(Bytes::from(dgram_payload(40 + i, 200 + 50 * i as usize))) {
+            o.fail("O2:send_datagram", format!("{e:?}"));
+        }
+    }
+    // let the datagrams leave before the close abandons whatever is still queued
+    aw!(o, "srv.sleep", vsleep(&o, Duration::from_millis(5)));
+    o.note("s10_datagrams_transmitted_before_close", conn.stats().frame_tx.datagram as i64);
+    conn.close(VarInt::from_u32(5), b"sent-all");
+    drop(conn);
+    ep.close(VarInt::from_u32(0), b"");
+    o.stage("done");
+}
+
 async fn accept_loop(o: Arc<Obs>, ep: Endpoint) {
     let mut n = 0u32;
     if o.scen == Scen::S9 {
@@ -1894,6 +1958,7 @@ async fn accept_loop(o: Arc<Obs>, ep: Endpoint) {
             Scen::S7 => o.world.spawn_app(&name, s7_server_conn(o2, inc, e2)),
             Scen::S8 | Scen::S8x => o.world.spawn_app(&name, s8_server_conn(o2, inc, e2)),
             Scen::S9 => o.world.spawn_app(&name, s9_server_conn(o2, inc, e2)),
+            Scen::S10 => o.world.spawn_app(&name, s10_server_conn(o2, inc, e2)),
         };
     }
     op!(o, "srv.wait_idle", ep.wait_idle());
@@ -1989,6 +2054,7 @@ pub fn run_spec(base: Instant, spec: &Spec, keep_trace: bool) -> Outcome {
             Scen::S7 => world.spawn_app("cli.main", s7_client(obs.clone(), cep, cc, saddr)),
             Scen::S8 | Scen::S8x => world.spawn_app("cli.main", s8_client(obs.clone(), cep, cc, saddr)),
             Scen::S9 => world.spawn_app("cli.main", s9_client(obs.clone(), cep, cc, saddr)),
+            Scen::S10 => world.spawn_app("cli.main", s10_client(obs.clone(), cep, cc, saddr)),
         };
         drop(rt);
         world.block_send_at(spec.send_block);
